@@ -50,9 +50,13 @@
 // legitimately show up in the graph sections), and, for overlay builds, only
 // in the build order of the block labels, merged in that order.
 //
-// No ID is ever put into two files: the code has no defined behaviour for it
-// (FindFeatureByID answers from the first file merged, EachFeature emits both,
-// searches de-duplicate) and no test or comment fixes one.
+// In the partition family above no ID is put into two files. A second family
+// (overlap.go) merges files whose contents OVERLAP (every distribution of the
+// world's features over 2, thorough also 3, files with some feature in several
+// files, identical content in each, every load order) and judges on them only
+// what the statement fixes for any set of files: lookups and the ID-ordered,
+// duplicate-free search results. EachFeature (emits a feature once per file
+// holding it) and the reference/traversal queries are not judged there.
 package main
 
 import (
@@ -189,16 +193,18 @@ type combo struct {
 	scheme wk.IDScheme
 	world  worldDef
 	spec   wk.Spec
-	parts  [][]int
-	first  int64 // index of the first case
+	parts  [][]int        // partition family (ov == nil)
+	ov     *overlapFamily // overlap family
+	first  int64          // index of the first case
 }
 
 type space struct {
 	combos []*combo
 	total  int64
 	// per-process caches (cases of one combo are adjacent)
-	singles map[string]*singleWorld
-	plain   map[string][]byte
+	singles  map[string]*singleWorld
+	plain    map[string][]byte
+	ovExpect map[string]*overlapExpect
 }
 
 type singleWorld struct {
@@ -222,7 +228,7 @@ func buildSpace(tier string) (*space, string) {
 	} else {
 		sels = []sel{{quickWorlds, quickSchemes}}
 	}
-	sp := &space{singles: map[string]*singleWorld{}, plain: map[string][]byte{}}
+	sp := &space{singles: map[string]*singleWorld{}, plain: map[string][]byte{}, ovExpect: map[string]*overlapExpect{}}
 	var desc []string
 	for _, s := range sels {
 		for _, w := range s.worlds {
@@ -242,16 +248,47 @@ func buildSpace(tier string) (*space, string) {
 			desc = append(desc, fmt.Sprintf("%s(%d features, %d partitions) x {%s}", w.name, n, len(partitions(n, 3)), strings.Join(s.schemes, ",")))
 		}
 	}
-	bound := "menu worlds " + strings.Join(desc, "; ") + "; every set partition into 2 or 3 files; plain: every merge order; overlay: every feature-keeping build order x every merge order (+ one lossy build order); universe = worldkit.Universe (9 menu IDs + 5 absent IDs), " + fmt.Sprint(len(queries)) + " tag queries"
+	// overlap family, after the partitions: 2 files for every world x scheme of
+	// the tier; thorough: also 3 files for the <= 6-feature worlds x the quick schemes
+	type osel struct {
+		worlds  []worldDef
+		schemes []string
+		k       int
+		group   int
+	}
+	var osels []osel
+	for _, s := range sels {
+		osels = append(osels, osel{s.worlds, s.schemes, 2, 16})
+	}
+	if tier == "thorough" {
+		osels = append(osels, osel{quickWorlds, quickSchemes, 3, 64})
+	}
+	var odesc []string
+	for _, s := range osels {
+		for _, w := range s.worlds {
+			n, nd := 0, 0
+			for _, sn := range s.schemes {
+				sch := schemeByName(sn)
+				spec := wk.Expand(slots, pick(slots, w.choice), sch)
+				n = len(spec)
+				c := &combo{scheme: sch, world: w, spec: spec, ov: &overlapFamily{k: s.k, dists: distributions(n, s.k), group: s.group}, first: sp.total}
+				nd = len(c.ov.dists)
+				sp.combos = append(sp.combos, c)
+				sp.total += c.ov.cases()
+			}
+			odesc = append(odesc, fmt.Sprintf("%s(%d features over %d files: %d distributions up to renaming files, %d per case) x {%s}", w.name, n, s.k, nd, s.group, strings.Join(s.schemes, ",")))
+		}
+	}
+	bound := "PARTITIONS: menu worlds " + strings.Join(desc, "; ") + "; every set partition into 2 or 3 files; plain: every merge order; overlay: every feature-keeping build order x every merge order (+ one lossy build order). OVERLAPPING FILES: " + strings.Join(odesc, "; ") + "; every assignment of a non-empty set of the files to each feature with every file used and >= 1 feature in several files, one per renaming of the files; plain builds; every load order; judged: has/feat/loc(point)/byid-has/find only. Universe = worldkit.Universe (9 menu IDs + 5 absent IDs), " + fmt.Sprint(len(queries)) + " tag queries"
 	return sp, bound
 }
 
 func (sp *space) Len() int64 { return sp.total }
 
-func (sp *space) locate(i int64) (*combo, []int) {
+func (sp *space) locate(i int64) (*combo, int64) {
 	k := sort.Search(len(sp.combos), func(j int) bool { return sp.combos[j].first > i }) - 1
 	c := sp.combos[k]
-	return c, c.parts[i-c.first]
+	return c, i - c.first
 }
 
 // ---------------------------------------------------------------- builds
@@ -449,13 +486,18 @@ type caseCtx struct {
 	c     *combo
 	part  []int
 	files []wk.Spec // by block label
+	label string    // overlap family: the distribution
 	r     *kit.Result
 	seen  map[string]bool // violation classes already reported in this case
 }
 
 func (sp *space) Run(i int64) kit.Result {
 	var r kit.Result
-	c, part := sp.locate(i)
+	c, li := sp.locate(i)
+	if c.ov != nil {
+		return sp.runOverlapCase(c, li)
+	}
+	part := c.parts[li]
 	k := blocks(part)
 	files := make([]wk.Spec, k)
 	for j, b := range part {
@@ -633,7 +675,14 @@ func (cc *caseCtx) violate(class, format string, a ...interface{}) {
 		return
 	}
 	cc.seen[class] = true
-	cc.r.Violations = append(cc.r.Violations, kit.Violation{Class: class, Msg: fmt.Sprintf(format, a...), Case: fmt.Sprintf("scheme %s world %s partition %v\n%s", cc.c.scheme.Name, cc.c.world.name, cc.part, cc.filesString())})
+	cc.r.Violations = append(cc.r.Violations, kit.Violation{Class: class, Msg: fmt.Sprintf(format, a...), Case: fmt.Sprintf("scheme %s world %s %s\n%s", cc.c.scheme.Name, cc.c.world.name, cc.caseLabel(), cc.filesString())})
+}
+
+func (cc *caseCtx) caseLabel() string {
+	if cc.label != "" {
+		return cc.label
+	}
+	return fmt.Sprintf("partition %v", cc.part)
 }
 
 // noBase is the empty base of a stand-alone FeaturesByID.
@@ -1015,10 +1064,10 @@ func main() {
 	}
 	kit.Main(&kit.Check{
 		ID: "C17", Level: "exploration",
-		Rule: "fixed list of worldkit menu worlds (valid as given) x ID schemes x every set partition of the world's features into 2 or 3 files (restricted growth strings); per partition: plain builds merged in every order, and overlay builds (BuildOverlayInMemory against the world merged so far) in every build order that keeps every feature, each merged in every order (build orders that lose a feature: the order of the block labels only, merged in that order). Non-trivial: every partition (>= 2 non-empty files); distinct by scheme|world|partition. Oracle: merged dump = independent model of the union of what the files hold (worldkit reference for has/feat/loc/find/each and FeaturesByID.HasFeatureWithID; direct-membership model for rels/areas of present features) and = single-file compact build of that union (all sections incl. refs/trav); a section is reported when the merged world differs from both. Lossy partitions are compared on the lookup/search sections only.",
+		Rule: "fixed list of worldkit menu worlds (valid as given) x ID schemes x every set partition of the world's features into 2 or 3 files (restricted growth strings); per partition: plain builds merged in every order, and overlay builds (BuildOverlayInMemory against the world merged so far) in every build order that keeps every feature, each merged in every order (build orders that lose a feature: the order of the block labels only, merged in that order). Non-trivial: every partition (>= 2 non-empty files); distinct by scheme|world|partition. Oracle: merged dump = independent model of the union of what the files hold (worldkit reference for has/feat/loc/find/each and FeaturesByID.HasFeatureWithID; direct-membership model for rels/areas of present features) and = single-file compact build of that union (all sections incl. refs/trav); a section is reported when the merged world differs from both. Lossy partitions are compared on the lookup/search sections only. Second family (overlapping files, after the partitions, fewest files then fewest copies first): every assignment of a non-empty set of the k files (k = 2; thorough also 3) to each feature of the world such that every file is used and >= 1 feature is in several files, one representative per renaming of the files (lexicographically least mask vector), identical feature content in every file holding it, plain builds, every load order; a case = a run of consecutive distributions (Distinct = their number); judged sections: has, feat, loc of points, FeaturesByID.HasFeatureWithID and find:<query> (whole sequence: ID order, no duplicates) against the same model and single-file build of the kept union; EachFeature and the reference/relation/area/traversal queries are not judged on overlapping files (EachFeature differences are counted).",
 		Assumptions: []string{
 			"what a file holds is decided by worldkit.ValidSubset per file (base points visible to overlay builds); areas need their paths in the same file, as compact.Validator implements",
-			"no ID occurs in two files (undefined in the code: first merged file wins for lookups, EachFeature emits both)",
+			"partition family: no ID occurs in two files. Overlap family: a feature held by several files has identical content in each, so a lookup has one right answer whichever file serves it; EachFeature emitting such a feature once per file and per-file back-references (FindReferences, relations/areas by feature, Traverse) are outside the statement and not judged there",
 			"a section where the single-file compact world itself differs from the model and the merged world equals the single-file world is counted, not reported (not a merge defect)",
 			"relations-by-feature and areas-by-point mean direct membership / a path of the area through the point, as one compact file answers (checked on the fly: disagreements of the single-file world with this model are counted)",
 			"deadlines are generous because the machine is shared; the space is sized by CPU time (quick about 8 CPU-minutes under load)",
